@@ -55,6 +55,20 @@ var hexRe = regexp.MustCompile(`\b[0-9A-F]{16,}\b`)
 // normMsg turns an error or panic message into its class: digits and quoted
 // text removed.
 func normMsg(s string) string {
+	if i := strings.Index(s, "map key "); i >= 0 {
+		// "…for map key <arbitrary bytes>. <cause>": drop the key
+		if j := strings.Index(s[i:], ". "); j >= 0 {
+			s = s[:i] + "map key K" + s[i+j:]
+		} else {
+			s = s[:i] + "map key K"
+		}
+	}
+	s = strings.Map(func(r rune) rune {
+		if r < 32 || r > 126 {
+			return '?'
+		}
+		return r
+	}, s)
 	s = quotedRe.ReplaceAllString(s, `"…"`)
 	s = hexRe.ReplaceAllString(s, "X")
 	s = digitsRe.ReplaceAllString(s, "N")
@@ -101,7 +115,7 @@ func (l *EventLog) Hash() string { return hex.EncodeToString(l.h[:8]) }
 // Counter is a string->int map with deterministic rendering.
 type Counter map[string]int
 
-func (c Counter) Inc(k string)        { c[k]++ }
+func (c Counter) Inc(k string)         { c[k]++ }
 func (c Counter) Addn(k string, n int) { c[k] += n }
 
 func (c Counter) Merge(o Counter) {
